@@ -67,6 +67,8 @@ def cases(tier, seed):
     for scale in ('linear', 'log'):
         for B in (7, 64, 300):
             yield ('big', scale, B, 3000, 5, seed)
+        yield ('big', scale, 9, 70000, 2, seed)          # beyond 2^16 samples
+        yield ('range', scale, 6, 600, 2, seed)          # amplitudes spanning 8 orders of magnitude inside one IMF
     for B in range(1, b['max_bins'] + 1):
         for scale in ('linear', 'log'):
             nal = 3 * B + 5
@@ -120,6 +122,13 @@ def check_big(case):
     idx = (t * 5 + m) % (len(edges) * 3)
     f = np.where(idx < len(edges), edges[np.minimum(idx, len(edges) - 1)], f)
     a = 1.0 + ((t + 2 * m) % 8)
+    rtol = 0.0
+    if case[0] == 'range':
+        # a strong low-frequency transient followed by a weak oscillation in a higher bin: every bin holds only samples
+        # of one size, so each per-bin sum is still accurate to rounding - whatever the other bins hold
+        f = np.where(t < 100, 1.5 + 0 * m, 40.0 + 0.01 * (t % 7) + 0 * m)
+        a = np.where(t < 100, 1e8, 1.0) + 0.0 * m
+        rtol = 1e-12
     viols = []
     bins = np.digitize(f, edges) - 1                    # reference: half-open bins via searchsorted semantics
     ok = (f >= edges[0]) & (f < edges[-1])
@@ -138,11 +147,11 @@ def check_big(case):
         except Exception as e:
             viols.append(('big:raise:%s' % type(e).__name__, 'large instance %r raised %r' % (case, e)))
             continue
-        if dense.shape != exp2.shape or not np.array_equal(dense, exp2):
+        if dense.shape != exp2.shape or not np.allclose(dense, exp2, rtol=rtol, atol=0):
             viols.append(('big:dense', 'large instance %r mode=%s: dense spectrum differs from the per-sample histogram' % (case, mode)))
         if not np.array_equal(np.asarray(sp.toarray()), dense):
             viols.append(('big:sparse', 'large instance %r mode=%s: sparse and dense differ' % (case, mode)))
-        if one.shape != exp1.shape or not np.array_equal(one, exp1):
+        if one.shape != exp1.shape or not np.allclose(one, exp1, rtol=rtol, atol=0):
             viols.append(('big:1d', 'large instance %r mode=%s: marginal spectrum differs from the per-sample histogram' % (case, mode)))
         if not (np.array_equal(f_, f) and np.array_equal(a_, a)):
             viols.append(('big:input-modified', 'large instance %r: inputs changed' % (case,)))
@@ -152,7 +161,7 @@ def check_big(case):
 def check_case(case):
     if case[0] == 'bins':
         return check_bins(case)
-    if case[0] == 'big':
+    if case[0] in ('big', 'range'):
         return check_big(case)
     from emd.spectra import hilberthuang, hilberthuang_1d
     _, scale, B, T, M, amp, fi, seed = case
